@@ -4,7 +4,7 @@ import sys
 import time
 import traceback
 
-from . import common, facts, interp, wire, rules_wire, rules_header, rules_hash, golden, hashrec, rules_align, gen_units, guards, rules_eps, rules_err, rules_schema, rules_loader, rules_zc, rules_cursor
+from . import common, facts, interp, wire, rules_wire, rules_header, rules_hash, golden, hashrec, rules_align, gen_units, guards, rules_eps, rules_err, rules_schema, rules_loader, rules_zc, rules_cursor, gen_corpus
 from .common import Report, Facts, ExportError
 
 ASSUME_COMMON = [
@@ -128,6 +128,93 @@ def check_C15(ctx):
     return "Tag tables of every tagged sum type extracted from the resolved program (writer match on self, reader match on the tag read) and compared as finite maps."
 
 
+def generated_corpus(ctx, rep, want, mode_rule=False, assoc=False, hash_rule=False):
+    """Thorough tier: the bounded-exhaustive + random generated corpus (epsrules/gen_corpus.py)."""
+    seed = ctx.seed
+    src, expect = gen_corpus.make("thorough", seed)
+    try:
+        p = ctx.facts.witness("wgen", gen=lambda d: gen_corpus.generate(d, "thorough", seed))
+    except ExportError as ex:
+        msg = "\n".join(l for l in str(ex).splitlines() if l.startswith("error"))[:600]
+        rep.add("COMPILE", "wgen", "the generated corpus (seed %d) does not compile with the working-tree derive macro: %s" % (seed, msg))
+        return
+    u = facts.load_universe([ctx.facts.epserde("default"), p])
+    w = wire.Wire(u)
+    ts = rules_wire.collect(u, w, crate_filter=("wgen",))
+    exp = rules_wire.Expander(u, w)
+    n = 0
+    for t in ts:
+        t.universe = u
+        t.wire = w
+        rules_wire.check_triple(t, exp, rep, modes=("full", "eps"), want=want)
+        n += 1
+    rep.count("generated_definitions", expect["defs"])
+    rep.count("generated_impl_pairs_analysed", n)
+    rep.floor("generated impl pairs", n, 200)
+    for smp in expect["samples"]:
+        rep.sample({"generated_definition": smp})
+    if mode_rule:
+        mode_rule_over(u, ts, rep)
+    if assoc:
+        m = 0
+        for name, wantt in expect["aliases"].items():
+            ent = u.aliases.get("wgen::" + name)
+            got = None
+            if ent:
+                c, aj = ent
+                l = aj.get("layout")
+                got = c.raw_tys[l["norm"]]["s"] if l else None
+            ok = got == wantt
+            rep.oblige(ok)
+            m += 1
+            if not ok:
+                rep.add("ASSOC", "wgen:" + name, "generated corpus (seed %d): %s normalises to `%s`, expected `%s`" % (seed, name, got, wantt))
+        rep.count("generated_assoc_equalities", m)
+    if hash_rule:
+        recs = rules_hash.collect(u, rep)
+        recs = [r for r in recs if r["impl"].crate.name == "wgen"]
+        srcp = os.path.join(common.WORK, "witness", ctx.facts.hash, "wgen", "src", "lib.rs")
+        if not os.path.exists(srcp):
+            os.makedirs(os.path.dirname(srcp), exist_ok=True)
+            open(srcp, "w").write(src)
+        k = rules_hash.rule_H1_derived(u, recs, rep, {"wgen": srcp})
+        rules_hash.rule_H2(u, recs, ts, rep)
+        rep.count("generated_recipes_checked", k)
+    return u, ts
+
+
+def mode_rule_over(u, ts, rep):
+    for t in ts:
+        if t.crate == "epserde" or t.des_impl is None:
+            continue
+        st = t.des_impl.self_ty
+        if st[0] != "adt" or st[1] not in u.adts:
+            continue
+        c, aj = u.adts[st[1]]
+        for r in t.paths.get("eps", []) or []:
+            if r.outcome != "ok" or not (isinstance(r.value, tuple) and r.value and r.value[0] == "adt"):
+                continue
+            vi = r.value[2]
+            var = [v for v in aj["variants"] if v["index"] == vi]
+            if not var:
+                continue
+            for (fi, fv) in r.value[3]:
+                if fi >= len(var[0]["fields"]):
+                    continue
+                fty = c.ty(var[0]["fields"][fi]["ty"])
+                want = "eps" if fty[0] == "param" else "full"
+                for k in rules_wire.atoms_in(fv):
+                    for a in r.atoms:
+                        if a.atom == k and a.k == "F":
+                            ok = a.mode == want
+                            rep.oblige(ok)
+                            rep.count("fields_mode_classified")
+                            if not ok:
+                                rep.add("MODE", "%s:%s.%s" % (t.key, var[0]["name"], var[0]["fields"][fi]["name"]),
+                                        "`%s`: field %s of type %s is read in %s mode by the derived eps reader, expected %s mode"
+                                        % (t.key, var[0]["fields"][fi]["name"], facts.ty_str(fty), a.mode, want), t.loc)
+
+
 def check_C05(ctx):
     import json
     rep = ctx.rep
@@ -194,6 +281,8 @@ def check_C05(ctx):
     rep.floor("associated-type equalities", n, 25)
     from . import witness
     witness.run_probes(ctx, rep, "C05")
+    if ctx.tier == "thorough":
+        generated_corpus(ctx, rep, ("W1", "W2", "W3", "W4", "W5", "PROB"), mode_rule=True, assoc=True, hash_rule=False)
     for name, want in exp["consts"].items():
         if name.startswith("K_"):
             continue
